@@ -198,7 +198,9 @@ class FieldNameResolver:
             name = snake_to_upper_camel(name, delimiter=self.original_delimiter)
 
         name = re.sub(r"[¹²³⁴⁵⁶⁷⁸⁹]|\W", "_", name)
-        if name[0].isnumeric():
+        # `\w` also matches characters that can never be part of an identifier (e.g. "⁰", "½", "①")
+        name = "".join(c if f"_{c}".isidentifier() else "_" for c in name)
+        if name[0].isnumeric() or not name[0].isidentifier():
             name = f"{self.special_field_name_prefix}_{name}"
 
         # We should avoid having a field begin with an underscore, as it
